@@ -57,7 +57,7 @@ void env_on_write(uint8_t byte);
 class TapeTransport : public Transport {
  public:
   TapeTransport() : Transport("tape", 0), m_len(0), m_nev(0), m_nfault(0), m_valid(true), m_allowErrors(true), m_allowWriteErrors(true),
-    m_bytesLeft(255) {}
+    m_bytesLeft(255), m_forced(false), m_noTimeout(false), m_forcedByte(0), m_nrderr(0) {}
   string getTransportInfo() const override { return "tape"; }
   result_t open() override { return RESULT_OK; }
   void close() override { m_valid = false; }
@@ -74,7 +74,8 @@ class TapeTransport : public Transport {
   result_t read(unsigned int timeout, const uint8_t** data, size_t* len) override {
     if (m_len == 0) {
       uint8_t choice = vp_nondet_u8();
-      if (choice == 0 || m_bytesLeft == 0) { env_now_ms += timeout; log(EV_TIMEOUT, 0, 0); return RESULT_ERR_TIMEOUT; }  // a timed-out read took 'timeout' ms
+      if (choice == 1 && m_allowErrors && m_bytesLeft == 0) { log(EV_RDERR, 0, 0); return RESULT_ERR_DEVICE; }
+      if ((choice == 0 && !m_noTimeout) || m_bytesLeft == 0) { env_now_ms += timeout; log(EV_TIMEOUT, 0, 0); return RESULT_ERR_TIMEOUT; }  // a timed-out read took 'timeout' ms
       if (choice == 1 && m_allowErrors) { log(EV_RDERR, 0, 0); return RESULT_ERR_DEVICE; }
       uint8_t n = static_cast<uint8_t>(1 + (choice >> 2) % ENV_MAXCHUNK);
       if (n > m_bytesLeft) n = m_bytesLeft;
@@ -95,9 +96,10 @@ class TapeTransport : public Transport {
     for (size_t i = n; i < m_len; i++) m_buf[i - n] = m_buf[i];
     m_len -= n;
   }
-  virtual uint8_t nextByte() { return vp_nondet_u8(); }
+  virtual uint8_t nextByte() { if (m_forced) { m_forced = false; return m_forcedByte; } return vp_nondet_u8(); }
   void log(uint8_t kind, uint8_t byte, uint8_t lone) {
     if (kind == EV_TIMEOUT || kind == EV_RDERR) m_nfault++;
+    if (kind == EV_RDERR) m_nrderr++;
 #ifndef ENV_NOLOG
     if (m_nev < ENV_MAXEV) { m_ev[m_nev].kind = kind; m_ev[m_nev].byte = byte; m_ev[m_nev].lone = lone; }
 #endif
@@ -110,6 +112,9 @@ class TapeTransport : public Transport {
   unsigned m_nfault;  // read timeouts/errors so far
   bool m_valid, m_allowErrors, m_allowWriteErrors;
   uint8_t m_bytesLeft;  // bound on the number of bytes the environment still delivers
+  bool m_forced, m_noTimeout;  // harness-chosen next fresh byte / no timeouts (case splits of a step harness)
+  uint8_t m_forcedByte;
+  unsigned m_nrderr;  // read errors (not timeouts) so far
 };
 
 #ifndef ENV_MAXMSG
